@@ -36,7 +36,7 @@ def readable(pool, host, obj, case):
     dictionary's content, because the getter caches its default in __dict__"""
     out = []
     for t in case["traits"]:
-        if t[1][0] == "DRangeDyn":
+        if t[1][0] in ("DRangeDyn", "DEnumDyn"):
             try:
                 clone = host()
                 clone.__dict__.update(obj.__dict__)
